@@ -5,6 +5,7 @@ import (
 	"fmt"
 	"math/rand"
 	"reflect"
+	"strings"
 
 	"package-operator.run/internal/verifharness/chkfam"
 	"package-operator.run/internal/verifharness/driver"
@@ -60,11 +61,28 @@ func Run(c *vh.Ctx) {
 					newest = o
 				}
 			}
+			ties := 0
+			for _, k := range driver.Keys(e.W.Store, g.SetKind) {
+				o := pkomodel.OwnerFrom(e.W.Store.Peek(scen.PKO(g.SetKind).GroupKind(), k.Namespace, k.Name))
+				if o != nil && newest != nil && o.Labels["app.kubernetes.io/instance"] == g.Name && o.Revision == newest.Revision {
+					ties++
+				}
+			}
 			switch {
+			case ties > 1:
+				// two revisions carry the same number (reported by the revision monitor where it happens): "newest" is undefined
+				e.Count("c07_final_oracle_skipped_duplicate_revision_numbers")
 			case newest == nil:
 				e.Report("C07:no-objectset-for-template", "after settling the deployment has no ObjectSet")
 			case !reflect.DeepEqual(pkomodel.TemplateSpecOf(newest.Raw), pkomodel.Canon(d.Template.Spec)):
-				e.Report("C07:newest-objectset-differs-from-template", fmt.Sprintf("after settling the newest ObjectSet %s (revision %d) does not equal the template", newest.Name, newest.Revision))
+				var all []string
+				for _, k := range driver.Keys(e.W.Store, g.SetKind) {
+					o := pkomodel.OwnerFrom(e.W.Store.Peek(scen.PKO(g.SetKind).GroupKind(), k.Namespace, k.Name))
+					if o != nil {
+						all = append(all, fmt.Sprintf("%s rev=%d hash=%s archived=%v paused=%v labels=%v conds=%v", o.Name, o.Revision, o.Annotations["package-operator.run/hash"], o.Archived, o.Paused, o.Labels, o.Conditions))
+					}
+				}
+				e.Report("C07:newest-objectset-differs-from-template", fmt.Sprintf("after settling the newest ObjectSet %s (revision %d) does not equal the template; deployment hash=%s collisionCount=%v; sets: %s", newest.Name, newest.Revision, d.TemplateHash, d.CollisionCount, strings.Join(all, " || ")))
 			case newest.Archived:
 				e.Report("C07:newest-objectset-archived", fmt.Sprintf("after settling the newest ObjectSet %s is archived", newest.Name))
 			default:
